@@ -114,8 +114,8 @@ def _pairs_post(volume):
                 st.oblige("never-raises", False, kind="raises", info={"exc": res.exc})
             return
         r = res.value
-        ok = isinstance(r, VObj) and r.cls == FC.FCLS
-        st.oblige("post.returns a formula", z3.BoolVal(ok))
+        ok = isinstance(r, VObj) and r.cls == FC.FCLS and all(r is not f for f in fs)
+        st.oblige("post.returns a new formula (never one of the components)", z3.BoolVal(ok))
         if not ok:
             return
         Rs = seq_of(r)
@@ -261,3 +261,87 @@ def _pct_unit(fn, which, n):
 
 U_BY_WEIGHT = [_pct_unit("convert_by_weight", "weight", n) for n in (1, 2)]
 U_BY_VOLUME = [_pct_unit("convert_by_volume", "volume", n) for n in (1, 2)]
+
+
+# ------------------------------------------------------------------------------ mix_by_weight / mix_by_volume wrappers
+
+def c_formula_copy(interp, st, args, kw):
+    """formula(x, table=T): a NEW Formula for x (units formula(...)); never x itself"""
+    return VObj("FormulaCopy", {"of": args[0], "table": kw.get("table")})
+
+
+def c_pairs_mixer(which):
+    def c(interp, st, args, kw):
+        pairs = interp.iterate_concrete(st, interp.resolve(st, args[0]))
+        return VObj("Mixture", {"which": which, "pairs": [interp.iterate_concrete(st, p) for p in pairs],
+                                "density": None, "name": None})
+    return c
+
+
+def _wrap_inputs(n, kwmode):
+    def mk(st, interp):
+        use_state(st)
+        args = []
+        fs, qs = [], []
+        for i in range(n):
+            f = FC.new_formula(st, "f%d" % i)
+            q = st.fresh("q%d" % i, z3.RealSort())
+            st.assume(q >= 0)
+            args += [f, q]
+            fs.append(f)
+            qs.append(q)
+        if kwmode == "odd":
+            args = args[:-1]
+        kw = {}
+        C = {"fs": fs, "qs": qs, "kwmode": kwmode}
+        if kwmode == "density":
+            C["d"] = kw["density"] = st.fresh("density", z3.RealSort())
+            st.assume(C["d"] > 0)
+            kw["name"] = "mix"
+        elif kwmode == "natural_density":
+            C["d"] = kw["natural_density"] = st.fresh("natural_density", z3.RealSort())
+            st.assume(C["d"] > 0)
+        elif kwmode == "unknown-keyword":
+            kw["densty"] = 1
+        return args, kw, C
+    return mk
+
+
+def _wrap_post(which):
+    def post(st, interp, C, res):
+        mode = C["kwmode"]
+        if res.outcome == "raise":
+            st.oblige("post.raises ValueError for an odd argument list and TypeError for an unknown keyword, nothing else",
+                      z3.BoolVal((mode == "odd" and res.exc == "ValueError") or (mode == "unknown-keyword" and res.exc == "TypeError")),
+                      kind="raises", info={"exc": res.exc})
+            return
+        st.oblige("post.well-formed calls only", z3.BoolVal(mode not in ("odd", "unknown-keyword")))
+        r = res.value
+        ok = isinstance(r, VObj) and r.cls == "Mixture" and r.attrs["which"] == which and len(r.attrs["pairs"]) == len(C["fs"])
+        st.oblige("post.returns the result of the %s pair mixer on one pair per component" % which, z3.BoolVal(bool(ok)))
+        if not ok:
+            return
+        for i, (f, q) in enumerate(r.attrs["pairs"]):
+            st.oblige("post.component %d is a fresh copy made by formula() of the caller's component (never the caller's object)" % i,
+                      z3.BoolVal(isinstance(f, VObj) and f.cls == "FormulaCopy" and f.attrs["of"] is C["fs"][i]))
+            st.oblige("post.component %d keeps its quantity" % i, R(q) == C["qs"][i])
+        if mode == "density":
+            st.oblige("post.density= and name= are applied to the mixture",
+                      z3.And(spec.eq_goal(interp, st, r.attrs.get("density"), C["d"]), z3.BoolVal(r.attrs.get("name") == "mix")))
+        elif mode == "natural_density":
+            st.oblige("post.natural_density= is applied to the mixture", spec.eq_goal(interp, st, r.attrs.get("natural_density"), C["d"]))
+        else:
+            st.oblige("post.no density keyword: the mixer's own density is kept", z3.BoolVal(r.attrs.get("density") is None and "natural_density" not in r.attrs))
+    return post
+
+
+def _wrap_unit(fname, which, n, mode):
+    return Unit("%s[%d components, %s]" % (fname, n, mode), FORMULAS + "." + fname, _wrap_inputs(n, mode), _wrap_post(which),
+                contracts={FORMULAS + ".formula": c_formula_copy, FORMULAS + "._mix_by_weight_pairs": c_pairs_mixer("weight"),
+                           FORMULAS + "._mix_by_volume_pairs": c_pairs_mixer("volume")},
+                inline={CORE + ".default_table"}, env={(CORE, "PUBLIC_TABLE"): VObj("PublicTable", {})},
+                replay={"module": "c11", "task": "replay"})
+
+
+U_MIX_WRAPPERS = [_wrap_unit(fn, w, n, m) for fn, w in (("mix_by_weight", "weight"), ("mix_by_volume", "volume"))
+                  for n, m in ((2, "plain"), (2, "density"), (1, "natural_density"), (2, "odd"), (1, "unknown-keyword"))]
